@@ -866,14 +866,24 @@ func (s *Stream) handshake(addr string, headers []Header, callback func(err erro
 	url, err := s.resolve(addr)
 	if err != nil {
 		callback(err, nil)
-	} else {
-		s.dial(url, func(err error, stream sonic.Stream) {
-			if err == nil {
-				err = s.upgrade(url, stream, headers)
-			}
-			callback(err, stream)
-		})
+		return
 	}
+
+	var stream sonic.Stream
+	s.dial(url, func(derr error, dstream sonic.Stream) {
+		if derr == nil {
+			derr = s.upgrade(url, dstream, headers)
+		}
+		err, stream = derr, dstream
+	})
+
+	if err != nil {
+		// Nothing can be done with a connection that could not be upgraded: do not leave it open. This must happen
+		// here and not in the callback above, which runs while the adapter still holds the connection's descriptor.
+		_ = s.CloseNextLayer()
+	}
+
+	callback(err, stream)
 }
 
 func (s *Stream) resolve(addr string) (resolvedUrl *url.URL, err error) {
